@@ -9,7 +9,8 @@ Import ListNotations.
 Open Scope Z_scope.
 
 Inductive lpc :=
-| LTop                 (* about to check the duration and consult the pacer *)
+| LTop                 (* about to read the elapsed time and check the duration *)
+| LPace (e : Z)        (* inside Pacer.Pace, called with elapsed e and hits = count *)
 | LSleep (until : Z)   (* time.Sleep(wait) *)
 | LSel1                (* first, non-blocking select (workers < maxWorkers) *)
 | LSel2                (* second, blocking select *)
@@ -32,7 +33,8 @@ Record st := {
   paces : list (Z * Z * Z * bool);   (* pacer consultations (elapsed, hits, wait, stop), most recent first *)
   pending : option (Z * Z * Z);      (* the pacer answer (elapsed, hits, wait) whose tick is still to come *)
   hist : list (Z * Z * Z * Z);       (* released ticks: (elapsed, hits, wait, instant of the rendezvous), most recent first *)
-  stop_true : Z          (* number of Stop calls that returned true *)
+  stop_true : Z;         (* number of Stop calls that returned true *)
+  tcalls : Z             (* number of targeter calls made so far *)
 }.
 
 Definition clamp (c : cfg) : Z := if maxw c <? initw c then maxw c else initw c.
@@ -41,9 +43,10 @@ Definition init (c : cfg) : st :=
   {| pc := LTop; now := 0; count := 0; nworkers := clamp c;
      idle := Z.to_nat (clamp c); got := 0; targ := []; infl := []; send := []; done := 0;
      seq := 0; stopped := false; ticks_closed := false; results_closed := false;
-     delivered := []; entered := []; stamps := []; paces := []; pending := None; hist := []; stop_true := 0 |}.
+     delivered := []; entered := []; stamps := []; paces := []; pending := None; hist := []; stop_true := 0; tcalls := 0 |}.
 
 Inductive label :=
+| CallPace                          (* loop: elapsed := time.Since(began); duration not exceeded; call Pace *)
 | Pace (w : Z) (stop : bool)        (* env: the pacer's answer *)
 | DurationOver                      (* loop: du > 0 && elapsed > du *)
 | Advance (d : Z)                   (* env: the clock *)
@@ -66,7 +69,7 @@ Definition set_pc (s : st) (p : lpc) : st :=
   {| pc := p; now := now s; count := count s; nworkers := nworkers s; idle := idle s; got := got s;
      targ := targ s; infl := infl s; send := send s; done := done s; seq := seq s; stopped := stopped s;
      ticks_closed := ticks_closed s; results_closed := results_closed s; delivered := delivered s;
-     entered := entered s; stamps := stamps s; paces := paces s; pending := pending s; hist := hist s; stop_true := stop_true s |}.
+     entered := entered s; stamps := stamps s; paces := paces s; pending := pending s; hist := hist s; stop_true := stop_true s; tcalls := tcalls s |}.
 
 Definition tick_taken (s : st) : st :=
   {| pc := LTop; now := now s; count := count s + 1; nworkers := nworkers s;
@@ -75,25 +78,28 @@ Definition tick_taken (s : st) : st :=
      ticks_closed := ticks_closed s; results_closed := results_closed s; delivered := delivered s;
      entered := entered s; stamps := stamps s; paces := paces s; pending := None;
      hist := match pending s with Some (e, h, w) => (e, h, w, now s) :: hist s | None => hist s end;
-     stop_true := stop_true s |}.
+     stop_true := stop_true s; tcalls := tcalls s |}.
 
 Definition over_deadline (c : cfg) (s : st) : bool := (0 <? du c) && (du c <? now s).
 
 Definition step (c : cfg) (s : st) (l : label) : option st :=
   match l with
+  | CallPace =>
+      match pc s with
+      | LTop => if over_deadline c s then None else Some (set_pc s (LPace (now s)))
+      | _ => None
+      end
   | Pace w stop =>
       match pc s with
-      | LTop =>
-          if over_deadline c s then None else
-          let s1 := {| pc := if stop then LCloseTicks else LSleep (now s + Z.max w 0);
-                       now := now s; count := count s; nworkers := nworkers s; idle := idle s; got := got s;
-                       targ := targ s; infl := infl s; send := send s; done := done s; seq := seq s;
-                       stopped := stopped s; ticks_closed := ticks_closed s; results_closed := results_closed s;
-                       delivered := delivered s; entered := entered s; stamps := stamps s;
-                       paces := (now s, count s, w, stop) :: paces s;
-                       pending := if stop then None else Some (now s, count s, w); hist := hist s;
-                       stop_true := stop_true s |} in
-          Some s1
+      | LPace e =>
+          Some {| pc := if stop then LCloseTicks else LSleep (now s + Z.max w 0);
+                  now := now s; count := count s; nworkers := nworkers s; idle := idle s; got := got s;
+                  targ := targ s; infl := infl s; send := send s; done := done s; seq := seq s;
+                  stopped := stopped s; ticks_closed := ticks_closed s; results_closed := results_closed s;
+                  delivered := delivered s; entered := entered s; stamps := stamps s;
+                  paces := (e, count s, w, stop) :: paces s;
+                  pending := if stop then None else Some (e, count s, w); hist := hist s;
+                  stop_true := stop_true s; tcalls := tcalls s |}
       | _ => None
       end
   | DurationOver =>
@@ -108,7 +114,7 @@ Definition step (c : cfg) (s : st) (l : label) : option st :=
               targ := targ s; infl := infl s; send := send s; done := done s; seq := seq s;
               stopped := stopped s; ticks_closed := ticks_closed s; results_closed := results_closed s;
               delivered := delivered s; entered := entered s; stamps := stamps s; paces := paces s;
-              pending := pending s; hist := hist s; stop_true := stop_true s |}
+              pending := pending s; hist := hist s; stop_true := stop_true s; tcalls := tcalls s |}
   | Wake =>
       match pc s with
       | LSleep u => if u <=? now s then Some (set_pc s (if nworkers s <? maxw c then LSel1 else LSel2)) else None
@@ -132,7 +138,7 @@ Definition step (c : cfg) (s : st) (l : label) : option st :=
                   idle := 1; got := got s; targ := targ s; infl := infl s; send := send s; done := done s;
                   seq := seq s; stopped := stopped s; ticks_closed := ticks_closed s;
                   results_closed := results_closed s; delivered := delivered s; entered := entered s;
-                  stamps := stamps s; paces := paces s; pending := pending s; hist := hist s; stop_true := stop_true s |}
+                  stamps := stamps s; paces := paces s; pending := pending s; hist := hist s; stop_true := stop_true s; tcalls := tcalls s |}
       | _, _ => None
       end
   | Sel2Tick =>
@@ -152,26 +158,26 @@ Definition step (c : cfg) (s : st) (l : label) : option st :=
                   targ := seq s :: targ s; infl := infl s; send := send s; done := done s;
                   seq := seq s + 1; stopped := stopped s; ticks_closed := ticks_closed s;
                   results_closed := results_closed s; delivered := delivered s; entered := entered s;
-                  stamps := (seq s, now s) :: stamps s; paces := paces s; pending := pending s; hist := hist s; stop_true := stop_true s |}
+                  stamps := (seq s, now s) :: stamps s; paces := paces s; pending := pending s; hist := hist s; stop_true := stop_true s; tcalls := tcalls s |}
       | O => None
       end
   | TargeterOk x =>
-      if memz x (targ s) && negb (memz x (fails c)) then
+      if memz x (targ s) && negb (memz (tcalls s) (fails c)) then
         Some {| pc := pc s; now := now s; count := count s; nworkers := nworkers s; idle := idle s; got := got s;
                 targ := remove1 x (targ s); infl := x :: infl s; send := send s; done := done s;
                 seq := seq s; stopped := stopped s; ticks_closed := ticks_closed s;
                 results_closed := results_closed s; delivered := delivered s;
                 entered := (x, now s) :: entered s; stamps := stamps s; paces := paces s; pending := pending s; hist := hist s;
-                stop_true := stop_true s |}
+                stop_true := stop_true s; tcalls := tcalls s + 1 |}
       else None
   | TargeterFail x =>
-      if memz x (targ s) && memz x (fails c) then
+      if memz x (targ s) && memz (tcalls s) (fails c) then
         Some {| pc := pc s; now := now s; count := count s; nworkers := nworkers s; idle := idle s; got := got s;
                 targ := remove1 x (targ s); infl := infl s; send := x :: send s; done := done s;
                 seq := seq s; stopped := true; ticks_closed := ticks_closed s;
                 results_closed := results_closed s; delivered := delivered s;
                 entered := entered s; stamps := stamps s; paces := paces s; pending := pending s; hist := hist s;
-                stop_true := stop_true s + (if stopped s then 0 else 1) |}
+                stop_true := stop_true s + (if stopped s then 0 else 1); tcalls := tcalls s + 1 |}
       else None
   | Complete x =>
       if memz x (infl s) then
@@ -180,7 +186,7 @@ Definition step (c : cfg) (s : st) (l : label) : option st :=
                 seq := seq s; stopped := stopped s; ticks_closed := ticks_closed s;
                 results_closed := results_closed s; delivered := delivered s;
                 entered := entered s; stamps := stamps s; paces := paces s; pending := pending s; hist := hist s;
-                stop_true := stop_true s |}
+                stop_true := stop_true s; tcalls := tcalls s |}
       else None
   | Consume x =>
       if memz x (send s) && negb (results_closed s) then
@@ -190,7 +196,7 @@ Definition step (c : cfg) (s : st) (l : label) : option st :=
                 seq := seq s; stopped := stopped s; ticks_closed := ticks_closed s;
                 results_closed := results_closed s; delivered := x :: delivered s;
                 entered := entered s; stamps := stamps s; paces := paces s; pending := pending s; hist := hist s;
-                stop_true := stop_true s |}
+                stop_true := stop_true s; tcalls := tcalls s |}
       else None
   | CloseTicks =>
       match pc s with
@@ -199,7 +205,7 @@ Definition step (c : cfg) (s : st) (l : label) : option st :=
                   targ := targ s; infl := infl s; send := send s; done := done s; seq := seq s;
                   stopped := stopped s; ticks_closed := true; results_closed := results_closed s;
                   delivered := delivered s; entered := entered s; stamps := stamps s; paces := paces s;
-                  pending := pending s; hist := hist s; stop_true := stop_true s |}
+                  pending := pending s; hist := hist s; stop_true := stop_true s; tcalls := tcalls s |}
       | _ => None
       end
   | WorkerExit =>
@@ -209,7 +215,7 @@ Definition step (c : cfg) (s : st) (l : label) : option st :=
                   targ := targ s; infl := infl s; send := send s; done := S (done s); seq := seq s;
                   stopped := stopped s; ticks_closed := ticks_closed s; results_closed := results_closed s;
                   delivered := delivered s; entered := entered s; stamps := stamps s; paces := paces s;
-                  pending := pending s; hist := hist s; stop_true := stop_true s |}
+                  pending := pending s; hist := hist s; stop_true := stop_true s; tcalls := tcalls s |}
           else None
       | O => None
       end
@@ -225,7 +231,7 @@ Definition step (c : cfg) (s : st) (l : label) : option st :=
                   targ := targ s; infl := infl s; send := send s; done := done s; seq := seq s;
                   stopped := stopped s; ticks_closed := ticks_closed s; results_closed := true;
                   delivered := delivered s; entered := entered s; stamps := stamps s; paces := paces s;
-                  pending := pending s; hist := hist s; stop_true := stop_true s |}
+                  pending := pending s; hist := hist s; stop_true := stop_true s; tcalls := tcalls s |}
       | _ => None
       end
   | FinalStop =>
@@ -235,7 +241,7 @@ Definition step (c : cfg) (s : st) (l : label) : option st :=
                   targ := targ s; infl := infl s; send := send s; done := done s; seq := seq s;
                   stopped := true; ticks_closed := ticks_closed s; results_closed := results_closed s;
                   delivered := delivered s; entered := entered s; stamps := stamps s; paces := paces s;
-                  pending := pending s; hist := hist s; stop_true := stop_true s + (if stopped s then 0 else 1) |}
+                  pending := pending s; hist := hist s; stop_true := stop_true s + (if stopped s then 0 else 1); tcalls := tcalls s |}
       | _ => None
       end
   | StopCall b =>
@@ -244,7 +250,7 @@ Definition step (c : cfg) (s : st) (l : label) : option st :=
                 targ := targ s; infl := infl s; send := send s; done := done s; seq := seq s;
                 stopped := true; ticks_closed := ticks_closed s; results_closed := results_closed s;
                 delivered := delivered s; entered := entered s; stamps := stamps s; paces := paces s;
-                pending := pending s; hist := hist s; stop_true := stop_true s + (if b then 1 else 0) |}
+                pending := pending s; hist := hist s; stop_true := stop_true s + (if b then 1 else 0); tcalls := tcalls s |}
       else None
   end.
 
